@@ -21,6 +21,7 @@ type symOps[T any] struct {
 	leaf   func(addr ssa.Value) (T, bool)              // value of an address not yet written
 	apply  func(method string, args []T, call *ssa.Call) (T, bool) // receiver := method(args)
 	helper func(call *ssa.Call, get func(ssa.Value) (T, bool), set func(ssa.Value, T)) bool
+	value  func(v ssa.Value) (T, bool) // abstract value of an SSA value stored into a cell (e.g. the result of fp.One())
 }
 
 func symEval[T any](fn *ssa.Function, blocks []*ssa.BasicBlock, ops symOps[T]) (map[ssa.Value]T, string) {
@@ -51,6 +52,10 @@ func symEval[T any](fn *ssa.Function, blocks []*ssa.BasicBlock, ops symOps[T]) (
 				// by-value copy: *dst = *src
 				if u, ok := x.Val.(*ssa.UnOp); ok && u.Op == token.MUL {
 					if v, ok := get(u.X); ok {
+						set(x.Addr, v)
+					}
+				} else if ops.value != nil {
+					if v, ok := ops.value(x.Val); ok {
 						set(x.Addr, v)
 					}
 				}
@@ -99,7 +104,8 @@ func RuleY1Y2(c *Ctx) {
 		c.Unresolved("Y1", "bandersnatch.computeY")
 	} else {
 		c.Saw(core.FnName(fn))
-		ops := symOps[string]{
+		ops := curveTermOps("p:x")
+		_ = symOps[string]{
 			leaf: func(a ssa.Value) (string, bool) {
 				p := core.PathOf(a)
 				switch {
@@ -421,10 +427,28 @@ func RuleS1(c *Ctx) {
 	if site != nil {
 		cl = loopOf(countedLoops(fn), site.at.Block())
 	}
-	if site == nil || cl == nil || len(site.args) != 2 || site.target == nil {
+	if site == nil || cl == nil || len(site.args) < 2 || site.target == nil {
 		c.Und("S1", "groupPolynomials:split", fn.Pos(), "the spawn loop handing (start, end) to each worker is not recognised")
 		return
 	}
+	// the two range arguments among the values handed to the worker: i*b and (i+1)*b
+	si, ei := -1, -1
+	for k, a := range site.args {
+		m, isM := a.(*ssa.BinOp)
+		if !isM || m.Op != token.MUL {
+			continue
+		}
+		if m.X == ssa.Value(cl.phi) && si < 0 {
+			si = k
+		} else if add, isAdd := m.X.(*ssa.BinOp); isAdd && add.Op == token.ADD && add.X == ssa.Value(cl.phi) && ei < 0 {
+			ei = k
+		}
+	}
+	if si < 0 || ei < 0 || si >= len(site.target.Params) || ei >= len(site.target.Params) {
+		c.Und("S1", "groupPolynomials:split", fn.Pos(), "the spawn loop handing (start, end) to each worker is not recognised")
+		return
+	}
+	startName, endName := site.target.Params[si].Name(), site.target.Params[ei].Name()
 	w := cl.bound
 	ok := true
 	var why []string
@@ -441,8 +465,8 @@ func RuleS1(c *Ctx) {
 		}
 		return m.X, m.Y, true
 	}
-	sx, sb, ok1 := mulOf(site.args[0])
-	ex, eb, ok2 := mulOf(site.args[1])
+	sx, sb, ok1 := mulOf(site.args[si])
+	ex, eb, ok2 := mulOf(site.args[ei])
 	var batch ssa.Value
 	if ok1 && ok2 && sb == eb && sx == ssa.Value(cl.phi) {
 		batch = sb
@@ -491,7 +515,7 @@ func RuleS1(c *Ctx) {
 	}
 	// worker: clip end to len(fs) and iterate start..end over the openings
 	t := site.target
-	isEnd := func(v ssa.Value) bool { p := core.PathOf(v); return p == "p:end" || p == "*(&p:end)" }
+	isEnd := func(v ssa.Value) bool { p := core.PathOf(v); return p == "p:"+endName || p == "*(&p:"+endName+")" }
 	isLenFs := func(v ssa.Value) bool {
 		x, isLen := core.IsLenOf(v)
 		return isLen && strings.Contains(core.PathOf(x), "fs")
@@ -517,7 +541,7 @@ func RuleS1(c *Ctx) {
 			for _, cd := range core.Conds(t) {
 				if (cd.Op == token.GTR || cd.Op == token.GEQ) && isEnd(cd.X) && isLenFs(cd.Y) {
 					for _, ins := range cd.Block.Succs[0].Instrs {
-						if st, isSt := ins.(*ssa.Store); isSt && core.PathOf(st.Addr) == "&p:end" && isLenFs(st.Val) {
+						if st, isSt := ins.(*ssa.Store); isSt && core.PathOf(st.Addr) == "&p:"+endName && isLenFs(st.Val) {
 							return true
 						}
 					}
@@ -535,7 +559,7 @@ func RuleS1(c *Ctx) {
 	}
 	iter := false
 	for _, wl := range countedLoops(t) {
-		if core.PathOf(wl.init) == "p:start" && wl.step == 1 && wl.op == token.LSS && clipOK(wl.bound) {
+		if core.PathOf(wl.init) == "p:"+startName && wl.step == 1 && wl.op == token.LSS && clipOK(wl.bound) {
 			iter = true
 		}
 	}
@@ -693,8 +717,14 @@ func isSquareNTimes(f *ssa.Function) bool {
 		return false
 	}
 	cl := cls[0]
-	z, isZ := core.ConstInt(cl.init)
-	if !isZ || z != 0 || cl.step != 1 || cl.op != token.LSS || cl.bound != ssa.Value(f.Params[1]) {
+	// exactly n iterations, counting up or down
+	n := ssa.Value(f.Params[1])
+	isK := func(v ssa.Value, k int64) bool { x, ok := core.ConstInt(v); return ok && x == k }
+	nTrips := (isK(cl.init, 0) && cl.step == 1 && cl.op == token.LSS && cl.bound == n) ||
+		(isK(cl.init, 1) && cl.step == 1 && cl.op == token.LEQ && cl.bound == n) ||
+		(cl.init == n && cl.step == -1 && cl.op == token.GTR && isK(cl.bound, 0)) ||
+		(cl.init == n && cl.step == -1 && cl.op == token.GEQ && isK(cl.bound, 1))
+	if !nTrips {
 		return false
 	}
 	calls := core.CallsIn(f)
@@ -927,4 +957,60 @@ func RuleR1(c *Ctx) {
 	}
 	c.Check(okAcc, "R1", "invSqrtEqDyadic:every-block-accumulated", fn.Pos(), fmt.Sprintf("invSqrtEqDyadic does not accumulate the newly found bits of every block i in [1,Blocks) at bit position %d*i-%d on every iteration [found: %s]", bs, un, strings.Join(found, "; ")),
 		strings.Join(found, "; "))
+}
+
+// curveTermOps: canonical terms over x, the curve constants A and D and 1 for the field operations of gnark's fp.Element
+// (commutative operations with sorted operands).
+func curveTermOps(xPath string) symOps[string] {
+	return symOps[string]{
+		leaf: func(a ssa.Value) (string, bool) {
+			p := core.PathOf(a)
+			switch {
+			case p == xPath:
+				return "x", true
+			case strings.HasSuffix(p, "CurveParams.A"):
+				return "A", true
+			case strings.HasSuffix(p, "CurveParams.D"):
+				return "D", true
+			}
+			return "", false
+		},
+		value: func(v ssa.Value) (string, bool) {
+			if call, ok := v.(*ssa.Call); ok {
+				if f := core.Callee(call.Common()); f != nil && f.Name() == "One" && len(call.Call.Args) == 0 {
+					return "1", true
+				}
+			}
+			return "", false
+		},
+		apply: func(m string, args []string, _ *ssa.Call) (string, bool) {
+			comm := func(op string) string {
+				a, b := args[0], args[1]
+				if b < a {
+					a, b = b, a
+				}
+				return op + "(" + a + "," + b + ")"
+			}
+			switch m {
+			case "SetOne":
+				return "1", true
+			case "Set":
+				return args[0], true
+			case "Square":
+				return "sq(" + args[0] + ")", true
+			case "Mul":
+				if args[0] == args[1] {
+					return "sq(" + args[0] + ")", true
+				}
+				return comm("mul"), true
+			case "Add":
+				return comm("add"), true
+			case "Sub":
+				return "sub(" + args[0] + "," + args[1] + ")", true
+			case "Div":
+				return "div(" + args[0] + "," + args[1] + ")", true
+			}
+			return "", false
+		},
+	}
 }
